@@ -53,7 +53,7 @@ def run(ctx):
     core.build_harness(bins=["solve"])
     rng = ctx.rng
     progs, items = sc.fragment_items(rng, ctx.n(20, 380), 6, 6, 0,
-                                     extra=[(pg.shape_andor, ctx.n(160, 1400)), (pg.shape_size_boundary, ctx.n(6, 40))])
+                                     extra=[(pg.shape_andor, ctx.n(160, 1400)), (pg.shape_size_boundary, ctx.n(6, 40))], neg_ring=True)
     items = [it for it in items if not pg.has_exists(it.goal)]
     solvers = collections.OrderedDict((k, v[0]) for k, v in CONFIGS.items())
     t0 = time.time()
